@@ -8,7 +8,7 @@ RULE = ("non-trivial = a 3-D rotation / axis-relative spherical-coordinate case 
         "(polar distance of the normalised axis) or has length outside [0.1,10], or a rotation with |alpha| > 2 pi, "
         "or axis-relative spherical coordinates with r outside [1e-3,1e3], "
         "or whose argument objects (axis, rotated vector, multiplied matrices) reach the call through a non-empty call history, "
-        "or a history of at least two calls made in one pristine process (`seq`); "
+        "or a history of at least two calls made in one pristine process (`seq`), or a product of at least two rotation matrices (`rotchain`); "
         "guard requests (wrong dimension / axis size) count when they exit; distinct by case text")
 LEVEL_TEXT = ("Theorems (Coq, over the reals, for every angle and every non-zero axis of any length): the 2-D and 3-D matrices returned by the "
               "model of Rotation_Matrix are orthogonal (R^T R = R R^T = 1, all entries), have determinant one, the 3-D rotation fixes the axis and its unit vector, "
@@ -26,6 +26,20 @@ LEVEL_TEXT = ("Theorems (Coq, over the reals, for every angle and every non-zero
               "answers (the source keeps nothing between two calls); theorems: every call of a history gets the answer a process gets that makes this call only, a repeated call the same answer, "
               "every 3-D / 2-D rotation at any position is the proper right-handed rotation by its own angle, alpha / -alpha / alpha again gives R, R^T = R^-1, R, "
               "spherical coordinates at any position have norm r and polar angle theta. "
+              "Products, lengths, whole turns, guards, Angle (C16_Proofs_Chain.v, C16_Proofs_Angle.v; unbounded statements): [rot_chain] is the model of P = Identity_Matrix(dim); P = P * Rotation_Matrix(alpha_k, dim, axis_k) "
+              "for a list of factors; theorems by induction over that list: the product of ANY number of 3-D rotations about ANY non-zero axes is returned, proper orthogonal and an isometry (C16_rotation_chain_proper), "
+              "any number of factors along one direction with different axis lengths - and any number of 2-D factors - give the rotation by the sum of the angles, R(alpha)^n = R(n alpha) for every n (C16_rotation_chain_adds_angles), "
+              "a chain applied to a vector is its factors applied in turn (C16_rotation_chain_applies_factors); the matrix and the axis-relative spherical coordinates depend on the direction of the axis only "
+              "(every positive multiple gives the same result, every negative multiple the transpose = the rotation by -alpha; C16_axis_direction_decides); alpha, theta, phi plus any integer number of whole turns give the same results "
+              "(C16_whole_turns, for all k in Z); the default axis gives [[cos,-sin,0],[sin,cos,0],[0,0,1]] and trace R = 1 + 2 cos(alpha) (C16_rotation3_default_axis_and_trace); "
+              "for EVERY number type, the doubles included: Rotation_Matrix returns exactly for dim = 2 and for dim = 3 with a 3-component axis (a dim x dim matrix) and ends the process otherwise, Angle returns exactly "
+              "for equal dimensions, Spherical_Coordinates with an axis returns a 3-vector for >= 3 components and ends the process for fewer, except for a 2-component axis whose norm compares equal to zero (C16_guards); "
+              "Angle for two non-zero vectors of ANY common dimension returns the angle in [0, pi] with cosine v1.v2 / (|v1| |v2|), symmetrically, the clamp of the source never acting over the reals "
+              "(Cauchy-Schwarz for the library's Dot by induction over the components), Angle(v, v) = 0, Angle(v, -v) = pi (C16_angle_any_dimension); the library's own Angle(v, R v) = Angle(R v, v) = |alpha| for v perpendicular to the axis and alpha in [-pi, pi] "
+              "(C16_rotation3_turns_by_alpha); by induction over the history of an axis OBJECT: an object that was only asked questions, copied, rescaled by positive factors, doubled by v += v and normalised, "
+              "any number of times in any order, is a positive multiple of the vector it was constructed from and both functions answer as for that vector (C16_history_keeping_direction; generated as `direction-keeping` histories, "
+              "whose answers S4 evaluates against the original vector as well).  These model functions are tied to the code by the new operations `rotchain` (the library's Identity_Matrix, operator* and Rotation_Matrix for 0 .. 24 factors, bit-identical, "
+              "with S4 clauses: product orthogonal / determinant one, columns = factors applied in turn, product = rotation by the sum for factors about one direction and in 2-D) and `rotangle` (Angle(v, R v) against |alpha| modulo whole turns). "
               "Not theorems: everything about rounding (orthogonality etc. 'to rounding', the behaviour near the poles in floating point, underflow of ev0^2+ev1^2, acos of a quotient an ulp above 1), "
               "and that the C++ objects carry no state beyond their components (the model has none by construction). "
               "Both are covered by the differential run of the extracted model against the library (bit-identical) - every Vector argument also as ONE live object taken through a generated "
@@ -381,6 +395,9 @@ def _decode(line):
         elif op == "rotaxis": d.update(alpha=cur.num()); d["axis"] = vec3(); d["mh"] = mh()
         elif op == "rotsph": d.update(alpha=cur.num(), r=cur.num(), theta=cur.num(), phi=cur.num()); d["axis"] = vec3(); d["mh"] = mh()
         elif op in ("angle", "cross"): d["a"] = vec(); d["b"] = vec()
+        elif op == "rotchain":
+            d.update(dim=cur.int()); n = cur.int(); d["factors"] = [(cur.num(), cur.lst()) for _ in range(n)]
+        elif op == "rotangle": d.update(alpha=cur.num()); d["axis"] = vec3(); d["v"] = vec3()
     except _Exit:
         d["exit"] = True
     return d
@@ -801,6 +818,37 @@ def _seq_cases(rng, n_random):
     return cs
 
 
+def _chain_cases(rng, n_cases, nmax):
+    """products of rotations: factors about one direction with different lengths (the angles add), about arbitrary non-zero axes
+    (coordinate directions, near the poles, every length), n equal factors, back and forth, 2-D with anything as axis; 0 .. nmax factors;
+    every angle and the sum of the angles stay in [-4 pi, 4 pi]"""
+    cs = []; pool = _axes(rng, 30)
+    def angles(n):
+        while True:
+            a = [_angle(rng) if rng.random() < 0.7 else rng.uniform(-1.0, 1.0) for _ in range(n)]
+            part = 0.0; ok = True
+            for x in a:
+                part += x; ok = ok and abs(part) <= 4 * PI
+            if ok: return a
+    for _ in range(n_cases):
+        kind = rng.choice(["same", "same", "general", "general", "power", "backforth", "2d"])
+        n = rng.choice([0, 1, 2, 2, 3, 3, 4, 5, rng.randint(2, nmax)])
+        if kind == "2d":
+            fs = [(a, rng.choice([[], [0.0, 0.0, 1.0], [1.0], [0.0, 0.0, 0.0]])) for a in angles(n)]
+            cs.append(Case(f"rotchain 2 {n} " + " ".join(f"{hx(a)} {flist(ax)}" for a, ax in fs), ("rotchain", "chain-2d"))); continue
+        axis, tag = rng.choice(pool)
+        if kind == "same":
+            fs = [(a, [rng.choice([1.0, 1.0, 2.0, 0.5, 10 ** rng.uniform(-3, 3)]) * x for x in axis]) for a in angles(n)]
+        elif kind == "general":
+            fs = [(a, rng.choice(pool)[0]) for a in angles(n)]
+        elif kind == "power":
+            a = rng.uniform(-4 * PI, 4 * PI) / max(n, 1); fs = [(a, list(axis))] * n
+        else:
+            h = angles(n // 2); fs = [(a, list(axis)) for a in h] + [(-a, list(axis)) for a in reversed(h)]
+        cs.append(Case(f"rotchain 3 {len(fs)} " + " ".join(f"{hx(a)} {flist(ax)}" for a, ax in fs), ("rotchain", "chain-" + kind, tag)))
+    return cs
+
+
 def generate(rng, tier):
     cs = []
     big = tier != "quick"
@@ -830,6 +878,14 @@ def generate(rng, tier):
         if rng.random() < 0.5: cs.append(Case(f"rotaxis {hx(_angle(rng))} " + _v3(axis), ("rotaxis", tag)))
         r = _radius(rng)
         cs.append(Case(f"rotsph {hx(_angle(rng))} {hx(r)} {hx(_theta(rng))} {hx(_phi(rng))} " + _v3(axis), ("rotsph", tag) + _rtag(r), tol=_rtol(r)))
+    # ---- chains: P = Identity_Matrix(dim); P = P * Rotation_Matrix(alpha_k, dim, axis_k) for any number of factors
+    cs += _chain_cases(rng, 2500 if big else 140, 24 if big else 9)
+    # ---- the library's own Angle between v and R v
+    for axis, tag in _axes(rng, 2000 if big else 40):
+        if not big and rng.random() < 0.5: continue
+        nrm = math.sqrt(_dot(axis, axis)); n = [x / nrm for x in axis]
+        v = _perp(rng, n) if rng.random() < 0.8 else [rng.gauss(0, 1) for _ in range(3)]
+        cs.append(Case(f"rotangle {hx(_angle(rng))} " + _v3(axis) + " " + _v3(v), ("rotangle", tag)))
     # ---- guards of Rotation_Matrix
     for dim in (0, 1, 4, -3, 5):
         cs.append(Case(f"rot {hx(0.3)} {dim} 3 0x0p+0 0x0p+0 0x1p+0", ("rot-guard",)))
@@ -864,6 +920,18 @@ def generate(rng, tier):
     rk = ["rot", "rot", "rotcomp", "rotapply", "rotback", "rotaxis", "rotsph", "sphrot"]; sk = ["spha", "spha", "sphad", "sphang"]
     for axis, tag in _axes(rng, 4000 if big else 300):
         cs += _hist_cases(rng, axis, tag, [rng.choice(rk), rng.choice(sk)] if not big else [rng.choice(rk), rng.choice(rk), rng.choice(sk), rng.choice(sk)])
+    # direction-keeping histories (theorem C16_history_keeping_direction): questions, copies, positive rescalings, v += v, Normalize in any order
+    for axis, tag in _axes(rng, 600 if big else 30):
+        if not big and rng.random() < 0.7: continue
+        hs = []
+        for _ in range(rng.randint(1, 7)):
+            k = rng.choice(["qn", "cp", "ms", "sm", "dv", "nz", "nd", "sa", "cr", "cs", "se", "eq"])
+            if k in ("ms", "sm", "dv"): hs.append((k, rng.choice([2.0, 0.5, 3.0, rng.uniform(0.1, 10.0)])))
+            elif k == "cr": hs.append(("cr", _angle(rng), 3))
+            elif k == "cs": hs.append(("cs", 1.0, _theta(rng), _phi(rng)))
+            else: hs.append((k,))
+        if rng.random() < 0.5: cs.append(Case(f"hist rot {hx(_angle(rng))} 3 {flist(axis)} {_fmt_vhist(hs)}", ("hist", "direction-keeping", tag)))
+        else: cs.append(Case(f"hist spha {hx(10 ** rng.uniform(-3, 3))} {hx(_theta(rng))} {hx(_phi(rng))} {flist(axis)} {_fmt_vhist(hs)}", ("hist", "direction-keeping", tag)))
     # histories that end in an object the library must refuse (or, for a zero 2-vector, may accept)
     z3 = flist([0.0, 0.0, 1.0])
     for hs in ([("rs", 2)], [("qn",), ("rs", 4)], [("as", 2, 1.0)], [("pa", [1.0, 0.0])], [("st", 3, 1.0)], [("qr", 3)], [("qd", [1.0, 2.0])],
@@ -921,6 +989,8 @@ def nontrivial(c, io):
     if d["nsteps"] > 0: return True
     if op in ("rot", "rotdef"): return (d["dim"] == 3 and (ax_nt(d["axis"]) or abs(d["alpha"]) > 2 * PI)) or (d["dim"] == 2 and abs(d["alpha"]) > 2 * PI)
     if op == "rotcomp": return ax_nt(d["axis"]) or abs(d["a"]) > 2 * PI or abs(d["b"]) > 2 * PI
+    if op == "rotchain": return len(d["factors"]) >= 2
+    if op == "rotangle": return ax_nt(d["axis"]) or abs(d["alpha"]) > 2 * PI
     if op == "rotsph" and not 1e-3 <= d["r"] <= 1e3: return True
     if op in ("rotapply", "rotback", "rotaxis", "rotsph", "sphrot"): return ax_nt(d["axis"]) or abs(d["alpha"]) > 2 * PI
     if op in ("spha", "sphad", "sphang"): return ax_nt(d["axis"]) or not 1e-3 <= d["r"] <= 1e3
@@ -1151,6 +1221,42 @@ def _angle_checks(sig, got, a, b, out, what, c_claim=None, delta=16 * EPS):
         out.append((f"{sig}:value", f"{what} = {got!r}, the angle between {a!r} and {b!r} lies in [{lo!r}, {hi!r}]"))
 
 
+def _chain_checks(d, o, out):
+    """P = 1 * R(a_1, ax_1) * ... * R(a_n, ax_n) built by the library.  Every factor is within 64 eps of the exact rotation (the slack of the
+    single-matrix clauses), every product adds 4 eps per entry: the clauses of the product get (n + 1) * 64 eps."""
+    dim, fs = d["dim"], d["factors"]; n = len(fs)
+    P, rest = _mat(o); ssum = rest[0]; rest = rest[1:]
+    if len(P) != dim or any(len(r) != dim for r in P): out.append(("rotchain:shape", f"the product of {n} {dim}-D rotations is {len(P)}x{len(P[0]) if P else 0}")); return
+    sl = (n + 1) * 64 * EPS
+    exact = math.fsum(a for a, _ in fs); mag = sum(abs(a) for a, _ in fs)
+    if not abs(ssum - exact) <= n * EPS * mag + TINY: out.append(("rotchain:harness-sum", f"sum of the angles {ssum!r} vs {exact!r}")); return
+    sumsl = (n * mag + abs(exact)) * EPS       # rounding of the running sum, seen through sin / cos
+    if dim == 2:
+        c, sn = math.cos(exact), math.sin(exact)
+        if not (abs(P[0][0] - c) <= sl + sumsl and abs(P[1][1] - c) <= sl + sumsl and abs(P[1][0] - sn) <= sl + sumsl and abs(P[0][1] + sn) <= sl + sumsl):
+            out.append(("rot2:composition", f"the product of {n} 2-D rotations is {P!r}, the rotation by the sum {exact!r} of the angles is [[{c!r}, {-sn!r}], [{sn!r}, {c!r}]]"))
+        if n >= 1:
+            Rs, _ = _mat(rest); _rot_answer_checks(ssum, 2, [], Rs, out, " (rotation by the sum of the angles)")
+        return
+    if any(len(ax) != 3 or not any(ax) or not all(math.isfinite(x) for x in ax) for _, ax in fs): return
+    _rot_checks("rot3", P, None, None, out, f" (for the product of {n} rotations)", extra=n * 64 * EPS)
+    # the product applied to the basis vectors is the factors applied one after the other, the last factor first
+    units = [_unit(ax) for _, ax in fs]
+    for j in range(3):
+        v = [1.0 if k == j else 0.0 for k in range(3)]
+        for (a, _), u in zip(reversed(fs), reversed(units)): v = _rodrigues(a, u, v)
+        if not all(abs(P[i][j] - v[i]) <= sl for i in range(3)):
+            out.append(("rotchain:factors-applied", f"column {j} of the product of {n} rotations is {[P[i][j] for i in range(3)]!r}, the factors applied in turn give {v!r}")); break
+    # factors about one direction (any lengths): the product is the rotation by the sum of the angles
+    if n >= 1 and all(max(abs(units[k][i] - units[0][i]) for i in range(3)) <= 4 * EPS for k in range(n)):
+        Rs, _ = _mat(rest)
+        _rot3_matrix_checks(Rs, ssum, fs[0][1], out, " (rotation by the sum of the angles)")
+        for j in range(3):
+            ref = _rodrigues(exact, units[0], [1.0 if k == j else 0.0 for k in range(3)])
+            if not all(abs(P[i][j] - ref[i]) <= sl + sumsl for i in range(3)):
+                out.append(("rot3:composition", f"the product of {n} rotations about {fs[0][1]!r} by {[a for a, _ in fs]!r} has column {j} = {[P[i][j] for i in range(3)]!r}, the rotation by the sum {exact!r} has {ref!r}")); break
+
+
 def predicates(c, io):
     """S4: the property's own clauses evaluated on the implementation's output."""
     out = []
@@ -1173,6 +1279,10 @@ def predicates(c, io):
         if exited: return [("rot:exit", "Rotation_Matrix terminated the process on a valid request")]
         R, _ = _mat(o)
         _rot_answer_checks(alpha, dim, axis, R, out, f" (axis {axis!r})" if d["hist"] else "")
+        if "direction-keeping" in c.tags:
+            # the object is a positive multiple of the vector it was constructed from: the clauses hold for that vector as well
+            cur = _Cur(c.line); cur.nxt(); cur.nxt(); cur.num(); cur.int(); start = cur.lst()
+            _rot_answer_checks(alpha, dim, start, R, out, f" (the axis object was constructed from {start!r} and only rescaled / normalised / asked since)")
     elif op == "rotcomp":
         a, b, axis = d["a"], d["b"], d["axis"]
         if exited: return [("rotcomp:exit", "Rotation_Matrix terminated the process on a valid request")]
@@ -1236,6 +1346,9 @@ def predicates(c, io):
         n = _unit(axis)
         w = o[1:4]
         if op != "sphrot" or not d["usteps"]: _spha_checks(op, r, th, axis, w, out)
+        if op == "spha" and "direction-keeping" in c.tags:
+            cur = _Cur(c.line); cur.nxt(); cur.nxt(); cur.num(); cur.num(); cur.num(); start = cur.lst()
+            _spha_checks(op, r, th, start, w, out)
         if op == "sphad":
             h = d["h"]
             w2 = o[5:8]
@@ -1263,6 +1376,22 @@ def predicates(c, io):
             u = w; R, _ = _mat(o[4:])
             if any(u) and all(math.isfinite(x) for x in u) and 1e-150 < math.sqrt(_dot(u, u)) < 1e150:
                 _rot3_matrix_checks(R, d["alpha"], u, out, f" (axis {u!r}, a vector returned by Spherical_Coordinates)")
+    elif op == "rotchain":
+        if exited: return [("rotchain:exit", "a product of valid rotations terminated the process")]
+        _chain_checks(d, o, out)
+    elif op == "rotangle":
+        alpha, axis, vec = d["alpha"], d["axis"], d["v"]
+        if exited: return [("rotangle:exit", "terminated the process on a valid request")]
+        w = o[1:4]; n = _unit(axis); ref = _rodrigues(alpha, n, vec); sc = math.sqrt(_dot(vec, vec))
+        if not all(abs(w[i] - ref[i]) <= 64 * EPS * sc for i in range(3)):
+            out.append(("rot3:perpendicular-turned", f"R v = {w!r}, Rodrigues' formula gives {ref!r} (axis {axis!r}, v {vec!r})")); return out
+        perp = abs(_dot(n, vec)) <= 16 * EPS * sc
+        for got, what in ((o[4], "Angle(v, R v)"), (o[5], "Angle(R v, v)")):
+            _angle_checks("angle", got, vec, w, out, what)
+            # v perpendicular to the axis is turned by alpha: the cosine of the angle between v and R v is cos(alpha); R v carries <= 64 eps |v|,
+            # the quotient inside Angle 16 eps, the residual (n.v)^2 / |v|^2 of the generated v is below eps
+            if perp and not math.isnan(got):
+                _angle_checks("rot3:turned-by-alpha", got, vec, w, out, what + f" for alpha = {alpha!r}", c_claim=math.cos(alpha), delta=96 * EPS)
     elif op == "angle":
         a, b = d["a"], d["b"]
         if len(a) != len(b):
